@@ -343,3 +343,22 @@ Definition need_cmd (ex : list (string * nat)) (c : acmd) : nat :=
 (* free scratch candidates *)
 Definition free_regs (pr : aparams) (nm : list reg) : list Z :=
   filter (fun i => negb (mem_reg (ap_bankR pr, i) nm)) (cands pr).
+
+(* ---------- reserved registers (assemble_subroutine(..., reserved_registers=...)) ---------- *)
+
+(* The builder passes the registers it still has claimed: they hold live values
+   although this subroutine may not mention them, and must never be used as
+   scratch.  _replace_constants merges them into the set of current registers. *)
+Definition replace_constants_res (pr : aparams) (rsv : list reg) (P : list acmd) : ares (list acmd) :=
+  match repl_all pr (named P ++ rsv) P with Some Q => AOk Q | None => AErr ENoScratch end.
+
+Definition assemble_ir_res (pr : aparams) (rsv : list reg) (P : list acmd) : ares (list acmd) :=
+  abind (replace_constants_res pr rsv (map make_args P)) assign_labels.
+
+Definition assemble_res (pr : aparams) (t : list row) (rsv : list reg) (P : list acmd)
+  : ares (list (row * list operand)) :=
+  abind (assemble_ir_res pr rsv P)
+        (fun T => match build t T with Some B => AOk B | None => AErr EBuild end).
+
+(* the line map when the pass works with the register set nm (named P ++ reserved) *)
+Definition pcmap_nm (pr : aparams) (nm : list reg) (P : list acmd) (k : nat) : nat := pcmap_from pr nm P k.
